@@ -560,7 +560,15 @@ func readContractFile(path, pkg string) (*ContractFile, error) {
 			}
 			cf.Ghosts = append(cf.Ghosts, &GhostDecl{TypeName: tn, Name: fs[0], T: strings.Join(fs[1:], ""), Pkg: pkg})
 		case "pred", "def":
+			isRec := false
+			if strings.HasPrefix(rest, "rec ") {
+				isRec = true
+				rest = strings.TrimSpace(rest[4:])
+			}
 			sf, err := parseSpecFunc(rest, kw == "pred")
+			if sf != nil {
+				sf.Rec = isRec
+			}
 			if err != nil {
 				return nil, fail(err)
 			}
